@@ -61,6 +61,16 @@ func mkWriterJob(r *prng.R) job {
 	if j.Matcher == 1 && j.N > 12000 && j.Family != "text" && j.Family != "random" {
 		j.N = 12000
 	}
+	if r.Chance(1, 8) {
+		// enough incompressible data for raw LZMA2 chunks followed by compressed ones: the
+		// writer then rolls its coder state back to the snapshot taken at the chunk start
+		j.Family = []string{"sandwich2", "sandwich", "altseg"}[r.Intn(3)]
+		j.N = 280000
+		j.Matcher = 0
+		if j.Block > 0 {
+			j.Block = 100000
+		}
+	}
 	return j
 }
 
